@@ -1140,8 +1140,27 @@ def shrink(case, fails):
       return [c['texts']]
     return [op[2] for op in c['prog'] if op[0] == 'add'] + [op[1] for op in c['prog'] if op[0] in ('call', 'fn')]
 
+  import time
+  deadline = time.time() + 60          # wide streams hold hundreds of texts: bounded effort, the case stays a failing one
+
+  # (SC07c) first whole blocks of texts (halves, quarters, ...), then single texts / characters
+  size = max((len(b) for b in lists_of(cur)), default=0) // 2
+  while size >= 2 and time.time() < deadline:
+    progress = False
+    for bi in range(len(lists_of(cur))):
+      start = 0
+      while start < len(lists_of(cur)[bi]) and time.time() < deadline:
+        c = copy.deepcopy(cur)
+        del lists_of(c)[bi][start:start + size]
+        if fails(c):
+          cur, progress = c, True
+        else:
+          start += size
+    if not progress:
+      size //= 2
+
   changed = True
-  while changed:
+  while changed and time.time() < deadline:
     changed = False
     for bi in range(len(lists_of(cur))):
       b = lists_of(cur)[bi]
@@ -1151,7 +1170,7 @@ def shrink(case, fails):
         if fails(c):
           cur, changed = c, True
           break
-        if isinstance(b[ti], str) and b[ti]:
+        if isinstance(b[ti], str) and b[ti] and len(b) <= 40:
           for cut in (b[ti][:-1], b[ti][1:]):
             c = copy.deepcopy(cur)
             lists_of(c)[bi][ti] = cut
